@@ -24,7 +24,7 @@ use std::collections::HashMap;
 use std::sync::Arc;
 use std::ops::{Deref, Range};
 use std::hash::{Hash, Hasher};
-use std::convert::TryInto;
+use std::convert::{TryFrom, TryInto};
 use datasize::DataSize;
 use itertools::Itertools;
 use once_cell::sync::OnceCell;
@@ -533,7 +533,10 @@ impl Object for u32 {
 }
 impl ObjectWrite for u32 {
     fn to_primitive(&self, _: &mut impl Updater) -> Result<Primitive> {
-        Ok(Primitive::Integer(*self as _))
+        match i32::try_from(*self) {
+            Ok(i) => Ok(Primitive::Integer(i)),
+            Err(_) => bail!("integer {} cannot be written as a PDF integer", self)
+        }
     }
 }
 
@@ -547,7 +550,10 @@ impl Object for usize {
 }
 impl ObjectWrite for usize {
     fn to_primitive(&self, _: &mut impl Updater) -> Result<Primitive> {
-        Ok(Primitive::Integer(*self as _))
+        match i32::try_from(*self) {
+            Ok(i) => Ok(Primitive::Integer(i)),
+            Err(_) => bail!("integer {} cannot be written as a PDF integer", self)
+        }
     }
 }
 
